@@ -1080,3 +1080,122 @@ def _fn_ast_async(fn):
     if not isinstance(node, ast.AsyncFunctionDef):
         raise GenError(getattr(fn, "__qualname__", str(fn)), "not a coroutine function")
     return node
+
+
+# ==================================================================================================
+# ControllerApplication._watchdog_feed / _get_free_buffers: awaits in sequence inside try/except/else;
+# each awaited keep-alive command's outcome is a parameter (a1 for the first, a2 for the free-buffer read)
+# ==================================================================================================
+class WdTr:
+    """state: failures (self._watchdog_failures), feeds (self._watchdog_feed_counter); cmds: keep-alive commands issued,
+    in order.  An await `k` is translated as: append the command; if its answer is a raising one (timeout / EZSP error)
+    continue with the except handler, otherwise with the rest of the try body; the counter bookkeeping
+    (self.state.counters ...) carries no control flow and is skipped."""
+
+    def __init__(self, where):
+        self.where = where
+        self.nawait = 0
+
+    def refuse(self, node, why="unsupported construct"):
+        raise GenError(self.where, f"{why}: `{ast.unparse(node)[:100]}`")
+
+    GHOST = ("counters = self.state.counters[COUNTERS_EZSP]", "counters.reset()", "LOGGER.", "cnt = counters[COUNTER_EZSP_BUFFERS]",
+             "cnt._raw_value = free_buffers", "cnt._last_reset_value = 0", "self.state.counters[COUNTERS_CTRL][COUNTER_WATCHDOG].increment()")
+
+    def ghost(self, s):
+        src = ast.unparse(s)
+        if isinstance(s, ast.Expr) and isinstance(s.value, ast.Constant):
+            return True
+        if isinstance(s, ast.For) and ast.unparse(s.iter) == "current_counters.items()":
+            return True
+        if isinstance(s, ast.If) and ast.unparse(s.test) in ("remainder == 0", "free_buffers is not None") \
+                and all(self.ghost(x) for x in s.body) and not s.orelse:
+            return True
+        return any(src.startswith(g) for g in self.GHOST)
+
+    def body(self, stmts, handler, orelse):
+        """stmts inside the try; handler / orelse are Gallina terms for `except` and `else`"""
+        if not stmts:
+            return orelse
+        s, rest = stmts[0], stmts[1:]
+        src = ast.unparse(s)
+        if self.ghost(s):
+            return self.body(rest, handler, orelse)
+        if isinstance(s, ast.If) and src.startswith("if self._ezsp.ezsp_version == 4:"):
+            a = self.body(list(s.body) + rest, handler, orelse)
+            b = self.body(list(s.orelse) + rest, handler, orelse)
+            return f"if v =? 4 then\n{textwrap.indent(a, '  ')}\nelse\n{textwrap.indent(b, '  ')}"
+        if src == "self._watchdog_feed_counter += 1":
+            return f"let feeds := feeds + 1 in\n{self.body(rest, handler, orelse)}"
+        if _dump(src) == _dump("remainder = self._watchdog_feed_counter % EZSP_COUNTERS_CLEAR_IN_WATCHDOG_PERIODS"):
+            return f"let remainder := feeds mod clear_period in\n{self.body(rest, handler, orelse)}"
+        if isinstance(s, ast.If) and ast.unparse(s.test) == "remainder > 0" and len(s.body) == 1 and len(s.orelse) == 1:
+            a = self.body(list(s.body) + rest, handler, orelse)
+            b = self.body(list(s.orelse) + rest, handler, orelse)
+            return f"if 0 <? remainder then\n{textwrap.indent(a, '  ')}\nelse\n{textwrap.indent(b, '  ')}"
+        aw = {"await self._ezsp.nop()": "KNop", "current_counters = await self._ezsp.read_counters()": "KReadCounters",
+              "current_counters = await self._ezsp.read_and_clear_counters()": "KReadAndClearCounters",
+              "free_buffers = await self._get_free_buffers()": "KGetValue"}
+        if src in aw:
+            k = aw[src]
+            ans = "a2" if k == "KGetValue" else "a1"
+            return (f"let cmds := cmds ++ [{k}] in\nif ans_raises {ans} then\n{textwrap.indent(handler, '  ')}\nelse\n"
+                    f"{textwrap.indent(self.body(rest, handler, orelse), '  ')}")
+        self.refuse(s)
+
+    def handler(self, stmts):
+        if not stmts:
+            return "(failures, feeds, false, cmds)"
+        s, rest = stmts[0], stmts[1:]
+        src = ast.unparse(s)
+        if self.ghost(s):
+            return self.handler(rest)
+        if src == "self._watchdog_failures += 1":
+            return f"let failures := failures + 1 in\n{self.handler(rest)}"
+        if isinstance(s, ast.If) and ast.unparse(s.test) == "self._watchdog_failures > MAX_WATCHDOG_FAILURES" and not s.orelse:
+            inner = [x for x in s.body if not self.ghost(x)]
+            if len(inner) != 1 or not (isinstance(inner[0], ast.Raise) and inner[0].exc is None):
+                self.refuse(s, "body of the give-up test")
+            return (f"if max_failures <? failures then (failures, feeds, true, cmds)\nelse\n{textwrap.indent(self.handler(rest), '  ')}")
+        self.refuse(s)
+
+
+def gen_watchdog_fn() -> str:
+    import bellows.zigbee.application as A
+    C = A.ControllerApplication
+    node = _fn_ast_async(C.__dict__["_watchdog_feed"])
+    where = "ControllerApplication._watchdog_feed (source)"
+    body = [s for s in node.body if not (isinstance(s, ast.Expr) and isinstance(s.value, ast.Constant))]
+    if len(body) != 1 or not isinstance(body[0], ast.Try) or body[0].finalbody or len(body[0].handlers) != 1:
+        raise GenError(where, "expected a single try/except/else")
+    t = body[0]
+    if _dump(ast.unparse(t.handlers[0].type)) != _dump("(asyncio.TimeoutError, EzspError)"):
+        raise GenError(where, f"exceptions caught: {ast.unparse(t.handlers[0].type)}")
+    if [ast.unparse(x) for x in t.orelse] != ["self._watchdog_failures = 0"]:
+        raise GenError(where, "else branch is not `self._watchdog_failures = 0`")
+    tr = WdTr(where)
+    handler = tr.handler(list(t.handlers[0].body))
+    term = tr.body(list(t.body), handler, "let failures := 0 in\n(failures, feeds, false, cmds)")
+    # _get_free_buffers: one getValue; a status other than success gives None (no exception)
+    gfb = _norm_body(C.__dict__["_get_free_buffers"]) if False else None
+    fn = C.__dict__["_get_free_buffers"]
+    nb = "\n".join(ast.unparse(s) for s in _fn_ast_async(fn).body if not (isinstance(s, ast.Expr) and isinstance(s.value, ast.Constant)))
+    want = """
+(status, value) = await self._ezsp.getValue(valueId=t.EzspValueId.VALUE_FREE_BUFFERS)
+if status != t.EzspStatus.SUCCESS:
+    return None
+buffers = int.from_bytes(value, byteorder='little')
+LOGGER.debug('Free buffers status %s, value: %s', status, buffers)
+return buffers"""
+    if _dump(nb) != _dump(want):
+        raise GenError("ControllerApplication._get_free_buffers", "source differs from the form the model mirrors:\n" + nb)
+    return ("(* GENERATED by harness/pysrc.py from the SOURCE TEXT of ControllerApplication._watchdog_feed -- do not edit *)\n"
+            "From Coq Require Import NArith List Bool.\nImport ListNotations.\nRequire Import BV.model.Watchdog.\nOpen Scope N_scope.\n\n"
+            "(* an awaited keep-alive command raises (asyncio.TimeoutError / EzspError) or returns; _get_free_buffers returns\n"
+            "   None for a status other than success, which is not an exception *)\n"
+            "Definition ans_raises (a : ans) : bool := match a with ATimeout | AEzspError => true | _ => false end.\n\n"
+            "(* from the source of ControllerApplication._watchdog_feed: (failures, feed counter) before, protocol version, the\n"
+            "   answers to the first keep-alive command and to the free-buffer read; result: failures, feed counter, whether the\n"
+            "   feed re-raised, the keep-alive commands issued *)\n"
+            "Definition py_watchdog_feed (max_failures clear_period : N) (v : N) (failures feeds : N) (a1 a2 : ans)\n"
+            "  : N * N * bool * list kcmd :=\n  let cmds := @nil kcmd in\n" + textwrap.indent(term, "  ") + ".\n")
